@@ -187,6 +187,12 @@ def equal_histories(spec, salt, rng):
         yield ("isolated node removed and inserted again" if not inc else
                "node removed with its hyperedges, all inserted again"), _hist(
             spec, N + E + [["rm_node", n], ["node", n, md]] + _edges_ops(inc) + fix)
+        # the node first carries OTHER metadata, is removed (a removed node is gone: what it carried must not come back) and inserted again
+        # with the final metadata; every node is inserted explicitly before any hyperedge mentions it, so no repair step is needed - or used
+        other = {"stale": [salt, "was here"], **copy.deepcopy(md)} if isinstance(md, dict) else {"stale": salt}
+        N2 = [["node", m, (other if m == n else mdm)] for m, mdm in nodes]
+        yield "node removed while carrying other metadata, inserted again with the final metadata (no repair step)", _hist(
+            spec, N2 + E + [["rm_node", n], ["node", n, md]] + _edges_ops(inc))
 
 
 # ------------------------------------------------------------------------------------------------ setter histories
